@@ -51,12 +51,18 @@ def no_signed_zero_under_max_min(gen):
     """max / min over values that contain both -0 and +0, or a NaN written as a value: -0 and +0 are the same value and
     a maximum of a set with a NaN in it is not defined, so which bit pattern an implementation returns (what its scan
     meets first, or what IEEE's maximum says) is not determined by any property.  Cases that create a file with one
-    of these two methods therefore write neither -0 nor NaN values, and do not copy NaNs."""
+    of these two methods therefore write neither -0 nor NaN values, do not copy NaNs, and do not sum-copy (which
+    stores NaN over destination values the sum does not have)."""
     def g(rnd, n, thorough=False):
         cases = gen(rnd, n, thorough)
         for cs in cases:
             if any(_MAXMIN.search(l) for l in cs['lines']):
                 cs['lines'] = [_HEX16.sub(_determined_for_max_min, l).replace(' copynan=1', ' copynan=0') for l in cs['lines']]
+                if any(l.startswith('clisumcopy ') for l in cs['lines']):
+                    # sum-copy stores "no value" (NaN) wherever the sum has none and the destination has one -- a NaN
+                    # written as a value; in a max / min destination its propagation is the undetermined case again:
+                    # such cases use the method sum instead
+                    cs['lines'] = [_MAXMIN.sub(lambda m_: m_.group(0)[:-1] + '2', l) for l in cs['lines']]
         return cases
     return g
 
